@@ -1,4 +1,5 @@
 import VlsModel.Lemmas.Tracker
+import VlsModel.Model.TrackerHandler
 /-
 C13 — The chain tracker moves its tip only by validated blocks; rejected requests change nothing.
 
@@ -451,5 +452,532 @@ example :
 /-- zero filter header on the tip: the proof is not looked at (documented bypass) -/
 example : (addBlock { exTracker with tip := ⟨⟨10, 9, 1, 0, true⟩, 0⟩ } exHeader
     { exProof [9] with verifyOk := false }).2 = .ok := by decide
+
+/-! ## 8. Histories: the remembered window is a linked chain, its length and the height are exact
+
+`add_block` does `headers.truncate(MAX_REORG_SIZE - 1); headers.push_front(tip)`, `remove_block` does
+`headers.pop_front()`.  Sections 1–6 speak about one request; here the bookkeeping is followed through arbitrary
+histories of add / remove / block-chunk requests (accepted and refused, compact and streamed), "at all heights
+relative to the retarget interval and reorg depth limit".  A history ends at the first `.panic` (the signer is gone). -/
+
+inductive TOp where
+  | add (h : Header) (p : Proof)
+  | remove (p : Proof) (v : Headers)
+  | chunk (d a : Nat)
+
+def tstep (t : Tracker) : TOp → Tracker × Out
+  | .add h p => addBlock t h p
+  | .remove p v => removeBlock t p v
+  | .chunk d a => blockChunk t d a
+
+/-- run a history; `none` = a request aborted the signer -/
+def trun : Tracker → List TOp → Option Tracker
+  | t, [] => some t
+  | t, op :: ops => match (tstep t op).2 with
+    | .panic => none
+    | _ => trun (tstep t op).1 ops
+
+/-- every entry's header names the next entry's header as its predecessor -/
+def LinkedList : List Headers → Prop
+  | a :: b :: rest => a.hdr.prev = b.hdr.hash ∧ LinkedList (b :: rest)
+  | _ => True
+
+/-- the tip followed by the remembered headers is a linked chain -/
+def Linked (t : Tracker) : Prop := LinkedList (t.tip :: t.headers)
+
+theorem LinkedList.tail {a : Headers} {l : List Headers} (h : LinkedList (a :: l)) : LinkedList l := by
+  cases l with
+  | nil => trivial
+  | cons b rest => exact h.2
+
+theorem LinkedList.take {a : Headers} {l : List Headers} (h : LinkedList (a :: l)) (k : Nat) :
+    LinkedList (a :: l.take k) := by
+  induction l generalizing a k with
+  | nil => simpa using h
+  | cons b rest ih =>
+    cases k with
+    | zero => trivial
+    | succ k => exact ⟨h.1, ih h.2 k⟩
+
+/-- an accepted `add_block` keeps the window a linked chain: the new tip links to the old one (checked), the old
+    tip is pushed in front of the truncated window -/
+theorem C13_linked_add (t : Tracker) (h : Header) (p : Proof) (hl : Linked t)
+    (hr : (addBlock t h p).2 = .ok) : Linked (addBlock t h p).1 := by
+  obtain ⟨h1, _, _, _, ht, _, hh⟩ := C13_advance_add t h p hr
+  unfold Linked
+  rw [ht, hh]
+  exact ⟨h1, hl.take _⟩
+
+/-- an accepted `remove_block` keeps it one: the supplied previous header is the remembered one (checked), or the
+    window is empty (deep reorg allowed) and the supplied header becomes a one-element chain -/
+theorem C13_linked_remove (t : Tracker) (p : Proof) (v : Headers) (hl : Linked t)
+    (hr : (removeBlock t p v).2 = .ok) : Linked (removeBlock t p v).1 := by
+  obtain ⟨_, _, _, _, hw, _, _, ht, _, hh⟩ := C13_advance_remove t p v hr
+  unfold Linked at hl ⊢
+  rw [ht, hh]
+  cases hs : t.headers with
+  | nil => trivial
+  | cons h0 rest =>
+    rw [hs] at hl
+    rw [hw h0 rest hs]
+    exact hl.tail
+
+/-- a block chunk touches neither tip nor window nor height -/
+theorem chunk_view (t : Tracker) (d a : Nat) :
+    (blockChunk t d a).1.tip = t.tip ∧ (blockChunk t d a).1.headers = t.headers ∧
+    (blockChunk t d a).1.height = t.height := by
+  unfold blockChunk
+  split
+  · exact ⟨rfl, rfl, rfl⟩
+  · split
+    · exact ⟨rfl, rfl, rfl⟩
+    · split <;> exact ⟨rfl, rfl, rfl⟩
+
+/-- every request that does not abort the signer preserves `Linked` -/
+theorem C13_linked_step (t : Tracker) (op : TOp) (hl : Linked t) (hp : (tstep t op).2 ≠ .panic) :
+    Linked (tstep t op).1 := by
+  cases op with
+  | add h p =>
+    cases hr : (addBlock t h p).2 with
+    | ok => exact C13_linked_add t h p hl hr
+    | panic => exact absurd hr hp
+    | err k =>
+      have hv := C13_atomic_add_view t h p k hr
+      simp only [Tracker.view, View.mk.injEq] at hv
+      unfold Linked; simp only [tstep]; rw [hv.1, hv.2.1]; exact hl
+  | remove p v =>
+    cases hr : (removeBlock t p v).2 with
+    | ok => exact C13_linked_remove t p v hl hr
+    | panic => exact absurd hr hp
+    | err k =>
+      have hv := C13_atomic_remove_view t p v k hr
+      simp only [Tracker.view, View.mk.injEq] at hv
+      unfold Linked; simp only [tstep]; rw [hv.1, hv.2.1]; exact hl
+  | chunk d a =>
+    obtain ⟨h1, h2, _⟩ := chunk_view t d a
+    unfold Linked; simp only [tstep]; rw [h1, h2]; exact hl
+
+/-- **C13, histories.** Along any history that does not abort the signer the tip and the remembered headers form a
+    linked chain (each header was accepted on top of the next one). -/
+theorem C13_linked_run (t t' : Tracker) (ops : List TOp) (hl : Linked t) (hr : trun t ops = some t') :
+    Linked t' := by
+  induction ops generalizing t with
+  | nil => simp only [trun, Option.some.injEq] at hr; subst hr; exact hl
+  | cons op ops ih =>
+    simp only [trun] at hr
+    cases ho : (tstep t op).2 with
+    | panic => rw [ho] at hr; cases hr
+    | ok => rw [ho] at hr; exact ih _ (C13_linked_step t op hl (by rw [ho]; simp)) hr
+    | err k => rw [ho] at hr; exact ih _ (C13_linked_step t op hl (by rw [ho]; simp)) hr
+
+/-- exact window length after an accepted `add_block`: one more, capped at `MAX_REORG_SIZE` -/
+theorem C13_window_add_exact (t : Tracker) (h : Header) (p : Proof) (hr : (addBlock t h p).2 = .ok) :
+    (addBlock t h p).1.headers.length = min (t.headers.length + 1) maxReorgSize ∧
+    (addBlock t h p).1.headers.head? = some t.tip := by
+  rw [(C13_advance_add t h p hr).2.2.2.2.2.2]
+  have := C13_gen_ok.1
+  refine ⟨?_, rfl⟩
+  simp only [List.length_cons, List.length_take, Nat.min_def]
+  split <;> split <;> omega
+
+/-- the window never exceeds `MAX_REORG_SIZE`, along any history -/
+theorem C13_window_step (t : Tracker) (op : TOp) (hw : t.headers.length ≤ maxReorgSize)
+    (hp : (tstep t op).2 ≠ .panic) : (tstep t op).1.headers.length ≤ maxReorgSize := by
+  cases op with
+  | add h p =>
+    cases hr : (addBlock t h p).2 with
+    | ok => exact C13_window_bounded t h p hr
+    | panic => exact absurd hr hp
+    | err k =>
+      have hv := C13_atomic_add_view t h p k hr
+      simp only [Tracker.view, View.mk.injEq] at hv
+      simp only [tstep]; rw [hv.1]; exact hw
+  | remove p v =>
+    cases hr : (removeBlock t p v).2 with
+    | ok => exact Nat.le_trans (C13_window_bounded_remove t p v hr) hw
+    | panic => exact absurd hr hp
+    | err k =>
+      have hv := C13_atomic_remove_view t p v k hr
+      simp only [Tracker.view, View.mk.injEq] at hv
+      simp only [tstep]; rw [hv.1]; exact hw
+  | chunk d a => simp only [tstep]; rw [(chunk_view t d a).2.1]; exact hw
+
+theorem C13_window_run (t t' : Tracker) (ops : List TOp) (hw : t.headers.length ≤ maxReorgSize)
+    (hr : trun t ops = some t') : t'.headers.length ≤ maxReorgSize := by
+  induction ops generalizing t with
+  | nil => simp only [trun, Option.some.injEq] at hr; subst hr; exact hw
+  | cons op ops ih =>
+    simp only [trun] at hr
+    cases ho : (tstep t op).2 with
+    | panic => rw [ho] at hr; cases hr
+    | ok => rw [ho] at hr; exact ih _ (C13_window_step t op hw (by rw [ho]; simp)) hr
+    | err k => rw [ho] at hr; exact ih _ (C13_window_step t op hw (by rw [ho]; simp)) hr
+
+/-- **Reorg depth limit.** With deep reorgs not allowed, a removal is answered `ReorgTooDeep` exactly when the
+    window is empty — whatever proof and previous header are supplied — and then nothing changes. -/
+theorem C13_reorg_too_deep (t : Tracker) (p : Proof) (v : Headers) (hd : t.allowDeep = false)
+    (hs : t.decoding = none) (he : t.headers = []) :
+    removeBlock t p v = (t, .err .reorgTooDeep) := by
+  unfold Tracker.removeBlock doRemoveBlock
+  simp only [he, hd, List.isEmpty_nil, Bool.not_false, Bool.and_self, if_true]
+  unfold abortIfStreamed
+  simp [hs]
+
+theorem abortIfStreamed_snd (t : Tracker) (r : Tracker × Out) : (abortIfStreamed t r).2 = r.2 := by
+  unfold abortIfStreamed
+  split
+  · split <;> rfl
+  · rfl
+
+theorem maybeFinish_err_kind {t t1 : Tracker} {p : Proof} {e : Nat} {k : ErrKind}
+    (hm : maybeFinish t p e = some (t1, some k)) : k = .decodeError := by
+  unfold maybeFinish at hm
+  split at hm
+  · cases hm
+  · cases hd : t.decoding with
+    | none => simp [hd] at hm
+    | some x =>
+      simp only [hd, Option.some.injEq, Prod.mk.injEq] at hm
+      obtain ⟨_, he⟩ := hm
+      by_cases hx : x ≠ e
+      · simp [hx] at he; exact he.symm
+      · simp [hx] at he
+
+/-- the checks after the window test answer with a decode, link, PoW, retarget or proof error, never `ReorgTooDeep` -/
+theorem removeCore_not_tooDeep (t : Tracker) (p : Proof) (v : Headers) :
+    (doRemoveBlock.removeCore t p v).2 ≠ .err .reorgTooDeep := by
+  intro h
+  unfold doRemoveBlock.removeCore at h
+  split at h
+  · cases h
+  · rename_i t1 e hm
+    rw [maybeFinish_err_kind hm] at h; cases h
+  · split at h
+    · cases h
+    · split at h
+      · rename_i e hv
+        unfold validateBlock at hv
+        split at hv
+        · rename_i e' hc
+          simp only [Option.some.injEq] at hv; subst hv
+          unfold headerCheck at hc
+          split at hc
+          · cases hc; cases h
+          · split at hc
+            · cases hc; cases h
+            · split at hc
+              · cases hc
+              · split at hc
+                · unfold validateRetarget at hc
+                  simp only at hc
+                  split at hc
+                  · cases hc; cases h
+                  · split at hc
+                    · cases hc; cases h
+                    · split at hc
+                      · cases hc; cases h
+                      · cases hc
+                · split at hc
+                  · cases hc; cases h
+                  · cases hc
+        · split at hv
+          · cases hv
+          · split at hv
+            · cases hv
+            · cases hv; cases h
+      · split at h
+        · cases h
+        · split at h <;> cases h
+
+/-- conversely a removal is never refused as too deep while a header is remembered -/
+theorem C13_not_too_deep (t : Tracker) (p : Proof) (v : Headers) (h0 : Headers) (rest : List Headers)
+    (he : t.headers = h0 :: rest) : (removeBlock t p v).2 ≠ .err .reorgTooDeep := by
+  unfold Tracker.removeBlock
+  rw [abortIfStreamed_snd]
+  unfold doRemoveBlock
+  simp only [he, List.isEmpty_cons, Bool.false_and, Bool.false_eq_true, if_false]
+  split
+  · simp
+  · split
+    · simp
+    · exact removeCore_not_tooDeep t p v
+
+/-- add then remove: the tip and the height are restored; the window is the old one less (at most) its oldest
+    entry, which `truncate(MAX_REORG_SIZE - 1)` dropped — the only trace of the excursion -/
+theorem C13_add_remove_roundtrip (t : Tracker) (h : Header) (p p' : Proof) (v : Headers)
+    (ha : (addBlock t h p).2 = .ok) (hr : (removeBlock (addBlock t h p).1 p' v).2 = .ok) :
+    (removeBlock (addBlock t h p).1 p' v).1.tip = t.tip ∧
+    (removeBlock (addBlock t h p).1 p' v).1.height = t.height ∧
+    (removeBlock (addBlock t h p).1 p' v).1.headers = t.headers.take (maxReorgSize - 1) := by
+  obtain ⟨_, _, _, _, _, hh, hw⟩ := C13_advance_add t h p ha
+  obtain ⟨_, _, _, _, hv, _, _, ht', hh', hw'⟩ := C13_advance_remove _ p' v hr
+  have hvt : v = t.tip := hv _ _ hw
+  refine ⟨by rw [ht', hvt], by rw [hh', hh]; omega, by rw [hw', hw]; rfl⟩
+
+/-- below the limit the window is restored exactly -/
+theorem C13_add_remove_roundtrip_exact (t : Tracker) (h : Header) (p p' : Proof) (v : Headers)
+    (hlen : t.headers.length < maxReorgSize)
+    (ha : (addBlock t h p).2 = .ok) (hr : (removeBlock (addBlock t h p).1 p' v).2 = .ok) :
+    (removeBlock (addBlock t h p).1 p' v).1.headers = t.headers := by
+  rw [(C13_add_remove_roundtrip t h p p' v ha hr).2.2]
+  exact List.take_of_length_le (by omega)
+
+/-- the history theorems are not vacuous: add, refused add (1 of 3 oracles), remove, on the example tracker -/
+example : Linked exTracker ∧
+    (trun exTracker [.add exHeader (exProof [1, 2]), .add ⟨12, 11, 1, 0, true⟩ (exProof [1]),
+                     .remove (exProof [2, 3]) exTracker.tip]).map (fun t => (t.tip, t.height, t.headers.length))
+      = some (exTracker.tip, 5, 1) := by
+  constructor
+  · exact ⟨by decide, trivial⟩
+  · decide
+
+/-! ## 9. Handler level: replies, process aborts, persistence (`handler.rs`, arms AddBlock / RemoveBlock / BlockChunk)
+
+At handler level only an orphan block and a missing proof are *refused by reply*; every other tracker error aborts the
+process (`panic!("add_block")`, `.expect("remove_block")`).  "A rejected request leaves everything as before, so a
+later correct request still succeeds" therefore reads: a reply-refusal leaves memory and the persisted entry untouched,
+and after an abort the restarted process is the node before the request — because the tracker entry is persisted only
+after an accepted request (`update_tracker` follows `Ok`).  Model: `Model/TrackerHandler.lean`. -/
+
+/-- general facts, streamed requests included: the persisted entry changes only with an `ok` reply … -/
+theorem C13_handler_store_only_on_ok (n : HNode) (op : HOp) (h : (hstep n op).2 ≠ .ok) :
+    (hstep n op).1.store = n.store := by
+  cases op with
+  | add hdr proof =>
+    cases proof with
+    | none => rfl
+    | some p =>
+      simp only [hstep, hAddBlock] at h ⊢
+      cases hres : Tracker.addBlock n.mem hdr p with
+      | mk t o =>
+        rw [hres] at h
+        cases o with
+        | ok => exact absurd rfl h
+        | panic => rfl
+        | err k => cases k <;> rfl
+  | remove proof prev =>
+    cases proof with
+    | none => rfl
+    | some p =>
+      simp only [hstep, hRemoveBlock] at h ⊢
+      cases hres : Tracker.removeBlock n.mem p prev with
+      | mk t o =>
+        rw [hres] at h
+        cases o with
+        | ok => exact absurd rfl h
+        | panic => rfl
+        | err k => rfl
+  | chunk d a =>
+    simp only [hstep, hBlockChunk]
+    cases hres : blockChunk n.mem d a with
+    | mk t o => cases o <;> rfl
+  | restart => exact absurd rfl h
+
+/-- … an `ok` reply to AddBlock / RemoveBlock means the new tip is in the persister … -/
+theorem C13_handler_ok_persisted (n : HNode) (op : HOp) (hop : ∀ d a, op ≠ .chunk d a) (hr : op ≠ .restart)
+    (h : (hstep n op).2 = .ok) : (hstep n op).1.store = (hstep n op).1.mem.view := by
+  cases op with
+  | add hdr proof =>
+    cases proof with
+    | none => cases h
+    | some p =>
+      simp only [hstep, hAddBlock] at h ⊢
+      cases hres : Tracker.addBlock n.mem hdr p with
+      | mk t o =>
+        rw [hres] at h
+        cases o with
+        | ok => rfl
+        | panic => cases h
+        | err k => cases k <;> cases h
+  | remove proof prev =>
+    cases proof with
+    | none => cases h
+    | some p =>
+      simp only [hstep, hRemoveBlock] at h ⊢
+      cases hres : Tracker.removeBlock n.mem p prev with
+      | mk t o =>
+        rw [hres] at h
+        cases o with
+        | ok => rfl
+        | panic => cases h
+        | err k => cases h
+  | chunk d a => exact absurd rfl (hop d a)
+  | restart => exact absurd rfl hr
+
+/-- … and a restart puts exactly the persisted entry (and the configured network / oracle set / deep-reorg flag) back
+    into memory, with no stream in progress -/
+theorem C13_handler_restart_view (n : HNode) :
+    (hRestart n).mem.view = n.store ∧ (hRestart n).mem.decoding = none ∧ (hRestart n).mem.ldec = false ∧
+    (hRestart n).mem.trusted = n.cfg.trusted ∧ (hRestart n).store = n.store := by
+  refine ⟨?_, rfl, rfl, rfl, rfl⟩
+  cases hs : n.store
+  simp [hRestart, Tracker.ofStore, Tracker.view, hs]
+
+/-- invariant between requests when no stream is in progress: the persisted entry is the tracker's view, memory
+    carries the node's configuration, no decode state is held anywhere -/
+structure HInv (n : HNode) : Prop where
+  synced : n.store = n.mem.view
+  net : n.mem.network = n.cfg.network
+  trusted : n.mem.trusted = n.cfg.trusted
+  deep : n.mem.allowDeep = n.cfg.allowDeep
+  nodec : n.mem.decoding = none
+  noldec : n.mem.ldec = false
+
+theorem HInv.ofStore_eq {n : HNode} (i : HInv n) : Tracker.ofStore n.cfg n.store = n.mem := by
+  obtain ⟨h1, h2, h3, h4, h5, h6⟩ := i
+  cases hm : n.mem with
+  | mk headers tip height network listeners decoding ldec trusted allowDeep =>
+    rw [hm] at h1 h2 h3 h4 h5 h6
+    simp only [Tracker.view] at h1
+    simp only at h2 h3 h4 h5 h6
+    simp [Tracker.ofStore, h1, ← h2, ← h3, ← h4, h5, h6]
+
+theorem HInv.restart_eq {n : HNode} (i : HInv n) : hRestart n = n := by
+  cases n with
+  | mk mem store cfg =>
+    simp only [hRestart]
+    rw [i.ofStore_eq]
+
+theorem HInv.abortStream_eq {n : HNode} (i : HInv n) : n.mem.abortStream = n.mem := by
+  obtain ⟨_, _, _, _, h5, h6⟩ := i
+  cases hm : n.mem
+  rw [hm] at h5 h6
+  simp only at h5 h6
+  simp [Tracker.abortStream, h5, h6]
+
+/-- **C13 at handler level, compact requests.**  For AddBlock / RemoveBlock without a stream in progress:
+    a reply-refusal returns the identical node; an accepted request re-establishes the invariant with the new tip
+    persisted; and if the handler aborts, the restarted process *is* the node before the request. -/
+theorem C13_handler_request (n : HNode) (op : HOp) (i : HInv n) (hop : ∀ d a, op ≠ .chunk d a) :
+    ((hstep n op).2 = .ok → HInv (hstep n op).1) ∧
+    (((hstep n op).2 = .signerError ∨ (hstep n op).2 = .invalidArgument) → (hstep n op).1 = n) ∧
+    ((hstep n op).2 = .abort → hRestart (hstep n op).1 = n) := by
+  have hn : (⟨n.mem, n.store, n.cfg⟩ : HNode) = n := by cases n; rfl
+  have hre : hRestart n = n := i.restart_eq
+  -- the three shapes a request can take
+  have refused : ∀ (r : HReply), r ≠ .ok → r ≠ .abort →
+      (((⟨n.mem, n.store, n.cfg⟩ : HNode), r).2 = .ok → HInv ((⟨n.mem, n.store, n.cfg⟩ : HNode), r).1) ∧
+      (((((⟨n.mem, n.store, n.cfg⟩ : HNode), r).2 = .signerError ∨ ((⟨n.mem, n.store, n.cfg⟩ : HNode), r).2 = .invalidArgument)) →
+          ((⟨n.mem, n.store, n.cfg⟩ : HNode), r).1 = n) ∧
+      (((⟨n.mem, n.store, n.cfg⟩ : HNode), r).2 = .abort → hRestart ((⟨n.mem, n.store, n.cfg⟩ : HNode), r).1 = n) := by
+    intro r h1 h2
+    refine ⟨?_, ?_, ?_⟩
+    · intro h; exact absurd h h1
+    · intro _; exact hn
+    · intro h; exact absurd h h2
+  have aborted : ∀ (t : Tracker),
+      (((⟨t, n.store, n.cfg⟩ : HNode), HReply.abort).2 = .ok → HInv ((⟨t, n.store, n.cfg⟩ : HNode), HReply.abort).1) ∧
+      (((((⟨t, n.store, n.cfg⟩ : HNode), HReply.abort).2 = .signerError ∨ ((⟨t, n.store, n.cfg⟩ : HNode), HReply.abort).2 = .invalidArgument)) →
+          ((⟨t, n.store, n.cfg⟩ : HNode), HReply.abort).1 = n) ∧
+      (((⟨t, n.store, n.cfg⟩ : HNode), HReply.abort).2 = .abort → hRestart ((⟨t, n.store, n.cfg⟩ : HNode), HReply.abort).1 = n) := by
+    intro t
+    refine ⟨?_, ?_, ?_⟩
+    · intro h; cases h
+    · intro h; rcases h with h | h <;> cases h
+    · intro _
+      show (⟨Tracker.ofStore n.cfg n.store, n.store, n.cfg⟩ : HNode) = n
+      rw [i.ofStore_eq]
+  cases op with
+  | chunk d a => exact absurd rfl (hop d a)
+  | restart =>
+    simp only [hstep]
+    rw [hre]
+    exact ⟨fun _ => i, fun _ => rfl, fun h => nomatch h⟩
+  | add hdr proof =>
+    simp only [hstep, hAddBlock]
+    cases proof with
+    | none =>
+      rw [i.abortStream_eq]
+      exact refused .invalidArgument (by decide) (by decide)
+    | some p =>
+      simp only
+      rcases addBlock_cases n.mem hdr p with c | ⟨k, hk, _⟩ | ⟨ls, hk, _, _, _⟩
+      · have e : addBlock n.mem hdr p = ((addBlock n.mem hdr p).1, .panic) := by rw [← c]
+        rw [e]
+        exact aborted _
+      · rw [hk, aborted_of_none i.nodec]
+        cases k
+        case orphan => exact refused .signerError (by decide) (by decide)
+        all_goals exact aborted _
+      · rw [hk]
+        refine ⟨fun _ => ?_, ?_, ?_⟩
+        · refine ⟨rfl, ?_, ?_, ?_, rfl, ?_⟩
+          · simpa [Tracker.added, Tracker.undecode] using i.net
+          · simpa [Tracker.added, Tracker.undecode] using i.trusted
+          · simpa [Tracker.added, Tracker.undecode] using i.deep
+          · simp [Tracker.added, Tracker.undecode, i.noldec]
+        · intro h; rcases h with h | h <;> cases h
+        · intro h; cases h
+  | remove proof prev =>
+    simp only [hstep, hRemoveBlock]
+    cases proof with
+    | none =>
+      rw [i.abortStream_eq]
+      exact refused .invalidArgument (by decide) (by decide)
+    | some p =>
+      simp only
+      rcases removeBlock_cases n.mem p prev with c | ⟨k, hk⟩ | ⟨ls, hk, _⟩
+      · have e : removeBlock n.mem p prev = ((removeBlock n.mem p prev).1, .panic) := by rw [← c]
+        rw [e]
+        exact aborted _
+      · rw [hk, aborted_of_none i.nodec]
+        exact aborted _
+      · rw [hk]
+        refine ⟨fun _ => ?_, ?_, ?_⟩
+        · refine ⟨rfl, ?_, ?_, ?_, rfl, ?_⟩
+          · simpa [Tracker.removed, Tracker.undecode] using i.net
+          · simpa [Tracker.removed, Tracker.undecode] using i.trusted
+          · simpa [Tracker.removed, Tracker.undecode] using i.deep
+          · simp [Tracker.removed, Tracker.undecode, i.noldec]
+        · intro h; rcases h with h | h <;> cases h
+        · intro h; cases h
+
+/-- histories of compact requests and restarts: the invariant holds throughout, and a request that is refused or
+    aborts (followed by the restart) can be deleted from the history without changing anything that follows:
+    **the later correct request still succeeds** -/
+theorem hrun_cons (n : HNode) (op : HOp) (ops : List HOp) :
+    hrun n (op :: ops) = hrun (if (hstep n op).2 = .abort then hRestart (hstep n op).1 else (hstep n op).1) ops := rfl
+
+theorem C13_handler_run (n : HNode) (ops : List HOp) (i : HInv n) (hc : ∀ op ∈ ops, ∀ d a, op ≠ .chunk d a) :
+    HInv (hrun n ops) := by
+  induction ops generalizing n with
+  | nil => exact i
+  | cons op ops ih =>
+    rw [hrun_cons]
+    have hop := hc op (by simp)
+    obtain ⟨h1, h2, h3⟩ := C13_handler_request n op i hop
+    have hrest : ∀ o ∈ ops, ∀ d a, o ≠ .chunk d a := fun o ho => hc o (by simp [ho])
+    cases hr : (hstep n op).2 with
+    | ok => rw [if_neg (by decide)]; exact ih _ (h1 hr) hrest
+    | signerError => rw [if_neg (by decide), h2 (Or.inl hr)]; exact ih n i hrest
+    | invalidArgument => rw [if_neg (by decide), h2 (Or.inr hr)]; exact ih n i hrest
+    | abort => rw [if_pos rfl, h3 hr]; exact ih n i hrest
+
+theorem C13_handler_skip_refused (n : HNode) (op : HOp) (ops : List HOp) (i : HInv n)
+    (hop : ∀ d a, op ≠ .chunk d a) (hr : (hstep n op).2 ≠ .ok) :
+    hrun n (op :: ops) = hrun n ops := by
+  obtain ⟨_, h2, h3⟩ := C13_handler_request n op i hop
+  rw [hrun_cons]
+  cases hq : (hstep n op).2 with
+  | ok => exact absurd hq hr
+  | signerError => rw [if_neg (by decide), h2 (Or.inl hq)]
+  | invalidArgument => rw [if_neg (by decide), h2 (Or.inr hq)]
+  | abort => rw [if_pos rfl, h3 hq]
+
+/-- a node freshly built from a persisted entry satisfies the invariant -/
+theorem C13_handler_inv_of_store (c : HConfig) (v : View) : HInv ⟨Tracker.ofStore c v, v, c⟩ := by
+  refine ⟨?_, rfl, rfl, rfl, rfl, rfl⟩
+  cases v; rfl
+
+/-- non-vacuity on the example tracker: an orphan is refused by reply, a block without the oracle majority aborts the
+    process, the correct block is accepted afterwards and persisted -/
+example :
+    let n0 : HNode := ⟨Tracker.ofStore ⟨.regtest, [1, 2, 3], false⟩ exTracker.view, exTracker.view,
+                       ⟨.regtest, [1, 2, 3], false⟩⟩
+    (hstep n0 (.add ⟨11, 7, 1, 0, true⟩ (some (exProof [1, 2])))).2 = .signerError ∧
+    (hstep n0 (.add exHeader (some (exProof [1])))).2 = .abort ∧
+    (hstep n0 (.add exHeader none)).2 = .invalidArgument ∧
+    (hrun n0 [.add ⟨11, 7, 1, 0, true⟩ (some (exProof [1, 2])), .add exHeader (some (exProof [1])),
+              .add exHeader (some (exProof [1, 2]))]).store.height = 6 := by decide
 
 end VlsModel.Props.C13
